@@ -653,7 +653,7 @@ class Explorer:
         def store_target(t, frame):
             if isinstance(t, ast.Name):
                 names.add(t.id)
-                if t.id in frame.globals_decl:
+                if frame is not None and t.id in frame.globals_decl:
                     globs.add(t.id)
             elif isinstance(t, (ast.Tuple, ast.List)):
                 for e in t.elts:
